@@ -39,6 +39,8 @@ enum Op {
     Clone(usize),
     Drop(usize),
     Eq(usize, usize),
+    /// the typed `List<T>::eq` (same steps as `Eq` in the model)
+    EqTyped(usize, usize),
     Index(usize, u64),
     IsEmpty(usize),
     ToVec(usize),
@@ -57,6 +59,7 @@ impl Op {
             Op::Clone(l) => format!("k{l}"),
             Op::Drop(l) => format!("d{l}"),
             Op::Eq(a, b) => format!("e{a}.{b}"),
+            Op::EqTyped(a, b) => format!("E{a}.{b}"),
             Op::Index(l, v) => format!("x{l}.{v}"),
             Op::IsEmpty(l) => format!("y{l}"),
             Op::ToVec(l) => format!("t{l}"),
@@ -76,6 +79,8 @@ impl Op {
             Op::Drop(..) => "drop",
             Op::Eq(a, b) if a == b => "eq-self",
             Op::Eq(..) => "eq",
+            Op::EqTyped(a, b) if a == b => "eqtyped-self",
+            Op::EqTyped(..) => "eqtyped",
             Op::Index(..) => "index",
             Op::IsEmpty(..) => "is_empty",
             Op::ToVec(..) => "to_vec",
@@ -95,6 +100,7 @@ impl Op {
             ("k", [l]) => Op::Clone(*l as usize),
             ("d", [l]) => Op::Drop(*l as usize),
             ("e", [a, b]) => Op::Eq(*a as usize, *b as usize),
+            ("E", [a, b]) => Op::EqTyped(*a as usize, *b as usize),
             ("x", [l, v]) => Op::Index(*l as usize, *v),
             ("y", [l]) => Op::IsEmpty(*l as usize),
             ("t", [l]) => Op::ToVec(*l as usize),
@@ -140,6 +146,10 @@ struct Case {
 impl Case {
     fn lists_text(&self) -> String {
         self.lists.iter().map(|l| format!("L{}", dots(l))).collect::<Vec<_>>().join(";")
+    }
+    /// the programs as the model sees them (the typed `==` is `Op.eq`)
+    fn model_progs_text(&self) -> String {
+        self.progs_text().replace('E', "e")
     }
     fn progs_text(&self) -> String {
         self.progs
@@ -279,6 +289,12 @@ fn run_thread(
                     Res::Unit
                 }
                 Op::Len(l) => Res::Nat(bag[*l].last().unwrap().len()),
+                Op::EqTyped(a, b) => {
+                    if a == b {
+                        hk::sched_op("harness:eq-same");
+                    }
+                    Res::Bool(bag[*a].last().unwrap() == bag[*b].last().unwrap())
+                }
                 Op::Index(l, v) => Res::Opt(bag[*l].last().unwrap().index(v).map(|i| i as u64)),
                 Op::IsEmpty(l) => Res::Bool(bag[*l].last().unwrap().is_empty()),
                 Op::ToVec(l) => Res::List(bag[*l].last().unwrap().to_vec()),
@@ -517,7 +533,7 @@ fn spec_op(lists: &mut [Vec<u64>], op: &Op) -> Res {
         Op::IsEmpty(l) => Res::Bool(lists[*l].is_empty()),
         Op::ToVec(l) => Res::List(lists[*l].clone()),
         Op::Clone(_) | Op::Drop(_) => Res::Unit,
-        Op::Eq(a, b) => Res::Bool(lists[*a] == lists[*b]),
+        Op::Eq(a, b) | Op::EqTyped(a, b) => Res::Bool(lists[*a] == lists[*b]),
     }
 }
 
@@ -705,6 +721,8 @@ fn alphabet() -> Vec<Op> {
         Op::Index(0, 3),
         Op::ToVec(0),
         Op::IsEmpty(1),
+        Op::EqTyped(0, 1),
+        Op::EqTyped(1, 0),
     ]
 }
 
@@ -731,7 +749,9 @@ fn random_op(rng: &mut Prng) -> Op {
         7 => Op::Concat(l, rng.below(2) as usize),
         8 => Op::Contains(l, 1 + rng.below(8)),
         9 => Op::Swap(l, rng.below(5) as usize, rng.below(5) as usize),
-        10 => Op::Eq(l, rng.below(2) as usize),
+        10 => {
+            if rng.chance(1, 2) { Op::Eq(l, rng.below(2) as usize) } else { Op::EqTyped(l, rng.below(2) as usize) }
+        }
         _ => match rng.below(5) {
             0 => Op::Len(l),
             1 => Op::Clone(l),
@@ -829,7 +849,7 @@ fn total_cases(thorough: bool) -> u64 {
 
 /// model's enumeration: schedule text -> observation
 fn model_enum(drv: &mut Driver, facts: &str, case: &Case) -> Result<BTreeMap<String, String>, String> {
-    let ans = drv.ask(&format!("c16 enum {facts} {} {}", case.lists_text(), case.progs_text()));
+    let ans = drv.ask(&format!("c16 enum {facts} {} {}", case.lists_text(), case.model_progs_text()));
     if ans == "bad-op" {
         return Err("driver answered bad-op".into());
     }
@@ -1335,7 +1355,7 @@ fn main() {
                     rep.evaluations += 1;
                     judge(&case, &ex, &mut rep);
                     if let Ok(mut d) = Driver::spawn() {
-                        let m = d.ask(&format!("c16 run gen {} {} {}", case.lists_text(), case.progs_text(), s));
+                        let m = d.ask(&format!("c16 run gen {} {} {}", case.lists_text(), case.model_progs_text(), s));
                         println!("MODEL  obs={m}");
                     }
                 }
